@@ -107,6 +107,8 @@ def run(ctx: Ctx):
     ctx.step(_need, "C04-O11", "R6 INCUMBENT", sm, "an integral node replaces the incumbent exactly when it is strictly better in the caller's sense", ["sol = tuple(result.solution)\n            sol_obj = result.objective", "if sign * sol_obj < sign * best_obj:\n                best_solution, best_obj = (sol, sol_obj)"])
     ctx.step(_need, "C04-O11", "R1 STATUS-GUARD", sm, "a node is dropped unsolved only when its bound cannot beat the incumbent; a solved node is dropped when its LP is not optimal or its value cannot beat the incumbent", ["if best_solution is not None and node_bound >= sign * best_obj - eps:\n            continue", "result = _solve_node(c, A, b, node.lower, node.upper, minimize, eps, max_iter)", "if result.status != LPStatus.OPTIMAL:\n            if result.status == LPStatus.MAX_ITER:\n                lp_budget_hit = True\n            continue", "lp_budget_hit = False", "if best_solution is not None and sign * result.objective >= sign * best_obj - eps:\n            continue", "frac_var = _most_fractional(result.solution, int_set, eps)\n        if frac_var is None:"], "a pruning test that fires in other cases discards nodes that may hold the optimum while the emptied tree still yields OPTIMAL")
     ctx.step(_need, "C04-O11", "R16 PAIRED-EFFECTS", sm, "the search starts from the root relaxation: its value (in minimisation form) is the root's bound and the root is the first open node", ["sign = 1 if minimize else -1", "root_bound = sign * root_result.objective\n    heappush(tree, (root_bound, counter, Node(root_bound, tuple(lower), tuple(upper), 0)))\n    counter += 1", "node_bound, _, node = heappop(tree)"], "without the root in the tree the loop never runs and whatever the heuristics found is labelled OPTIMAL")
+    ctx.step(_need, "C04-O9", "R18 table", ctx.func("milp", "_is_feasible"), "the certifier answers False for a negative component, a fractional integer variable or a violated row, and True only after all three tests", ["if any((x[j] < -eps for j in range(n))):\n        return False", "for j in int_set:\n        if abs(x[j] - round(x[j])) > eps:\n            return False", "for i, row in enumerate(A):\n        lhs = sum((row[j] * x[j] for j in range(n)))\n        if lhs > b[i] + eps:\n            return False", "return True"], "the certifier is the only thing between a heuristic point (warm start, rounding, LNS) and the incumbent")
+    ctx.step(_need, "C04-O11", "R1 STATUS-GUARD", sn, "node LP: a relaxation that is not OPTIMAL is handed back as it is; an all-fixed node is OPTIMAL exactly when every row holds", ["if result.status != LPStatus.OPTIMAL:\n        return result", "if lhs > b[i] + eps:\n                return Result(None, float('inf') if minimize else float('-inf'), 0, 0, LPStatus.INFEASIBLE)", "return Result(tuple(sol), obj, 0, 0, LPStatus.OPTIMAL)", "if hi < lo - eps:\n            return Result(None, float('inf') if minimize else float('-inf'), 0, 0, LPStatus.INFEASIBLE)"])
     ctx.step(_need, "C04-O6", "R1 STATUS-GUARD", ctx.func("milp", "_detect_binary"), "a variable counts as bounded by 1 only through a row with right-hand side 1 whose single non-zero entry - over all columns, continuous ones included - is a 1 in that integer column; all integer variables must be bounded that way", ["if abs(b[i] - 1.0) > eps:\n            continue", "nz = [(j, row[j]) for j in range(n) if abs(row[j]) > eps]", "if len(nz) == 1:\n            j, coef = nz[0]\n            if j in int_set and abs(coef - 1.0) < eps:\n                bounded.add(j)", "return len(bounded) == len(int_set) and len(int_set) > 0"], "a row such as x - 2y <= 1 with y continuous is no bound on x: taking it for one clamps x to [0, 1] in every node LP and a cut-off optimum is reported OPTIMAL")
     ctx.step(_need, "C04-O11", "R6 INCUMBENT", sm, "heuristic incumbents: a warm start is taken only if it has the right length and is feasible, the LNS result only if it is strictly better than the incumbent, each with the objective recomputed from c", ["if len(ws) == n and _is_feasible(ws, A, b, int_set, eps):\n            best_obj = sum((c[j] * ws[j] for j in range(n)))\n            best_solution = ws", "improved_obj = sum((c[j] * improved[j] for j in range(n)))\n            if minimize and improved_obj < best_obj or (not minimize and improved_obj > best_obj):\n                best_solution, best_obj = (improved, improved_obj)", "best_obj = sum((c[j] * rounded[j] for j in range(n)))\n            best_solution = rounded"])
 
